@@ -174,12 +174,26 @@ def at_least_one(v, pc) -> bool:
     return False
 
 
-def attempt_expr_ok(v, pc) -> bool:
+def attempt_expr_ok(v, pc, absent_cell: bool = False) -> bool:
     """attempt handed to a strategy / logger: recorded attempt + 1, or 1 when nothing is recorded."""
     from .values import Const, Sym
 
     if isinstance(v, Const):
-        return v.value == 1
+        # "1 when nothing is recorded": the path must have established that there is no recorded attempt count (r6_C04: a constant 1 left over from
+        # __init__ was handed to the strategy for an interrupted retry attempt, whose record says attempt k-1)
+        if v.value != 1:
+            return False
+        if absent_cell:
+            return True  # nothing was recorded when the call began (concretely absent: no path condition is created for it)
+        for k, val in pc:
+            ks = str(k)
+            if (ks.endswith(".operation") or ks.endswith(".step_details") or ks.endswith("step_details)") or ks.endswith("operation)")) and val is False:
+                return True
+            if (ks.endswith("operation is None") or ks.endswith("step_details is None")) and val is True:
+                return True
+            if (ks.endswith("operation is not None") or ks.endswith("step_details is not None")) and val is False:
+                return True
+        return False
     if isinstance(v, Sym) and v.parts and v.parts[0] == "BINOP" and v.parts[1] == "+":
         l, r = v.parts[2], v.parts[3]
         if isinstance(r, Const) and r.value == 1 and isinstance(l, Sym) and l.k.endswith("step_details.attempt") and l.k.startswith("op@"):
